@@ -28,13 +28,22 @@ class C01(Property):
                    "a write that raises gives no verdict here (C15 / C12 judge it)")
 
     def enumerate(self, ctx):
-        return synthgen.enumerate_synth(ctx)
+        yield from synthgen.enumerate_synth(ctx)
+        # a storage unit without any logical file: the label alone, no visible record (zero is a whole number)
+        k = 0
+        for vrl in (20, 256, 8192, 16384):
+            for ocs in (None, vrl, vrl + 6, 4096, 65536):
+                for seq, ident in ((1, None), (0, 'LABEL ONLY'), (9999, 'x' * 60)):
+                    k += 1
+                    if k % ctx.nshards == ctx.shard:
+                        yield {'kind': 'spec', 'sul': {'vrl': vrl, 'seq': seq, 'id': ident}, 'lfs': [],
+                               'write': {'ocs': ocs if ocs is None or ocs >= vrl else vrl}}
 
     def enumerated_exhaustive_claim(self, tier):
         return True
 
     def exhaustive_scope(self, tier):
-        return synthgen.exhaustive_scope(tier)
+        return synthgen.exhaustive_scope(tier) + '; plus 60 storage units without any logical file (label only)'
 
     def searches(self, ctx):
         n = 6000 if ctx.tier == 'quick' else 60000
